@@ -108,15 +108,26 @@ def proof_status(prop_files, clean=False):
         if open_ax:
             problems += open_ax
     if clean and not problems:
-        # independent re-check of the compiled property files and everything they depend on, with the axioms they rely on
+        # independent re-check (coqchk) with the axioms relied upon.  The bulk of the development (all 30 panel verdicts,
+        # ~30 min) is re-checked recursively once per state of the sources; each property file is then re-checked on
+        # its own (-norec: its dependencies were covered by the recursive run).
+        def chk(args):
+            r3 = sh("cd %s && timeout 6000 coqchk -silent -o -Q . EPD %s 2>&1 | tail -15" % (COQ, args))
+            out = r3.stdout
+            ok = 'Axioms: <none>' in out and 'type-in-type: <none>' in out and 'unsafe (co)fixpoints: <none>' in out and 'positivity is assumed: <none>' in out
+            return ok, out
+        stamp = os.path.join(WORK, 'coqchk-' + tree_hash([COQ]) + '.txt')
+        with Lock('coqchk'):
+            if not os.path.exists(stamp):
+                ok, out = chk("EPD.Proof.Recovery EPD.Proof.Enc EPD.Proof.Windows EPD.HalProofs EPD.Big.FailStop EPD.Big.Tiling EPD.Big.Window EPD.Big.Mode "
+                              "EPD.Pure.GraphicsProofs2 EPD.Pure.SizingProofs EPD.Pure.ColorProofs EPD.Pure.RectProofs")
+                open(stamp, 'w').write(('OK\n' if ok else 'FAILED\n') + out)
+        if not open(stamp).read().startswith('OK'):
+            problems.append("coqchk (recursive run over the development) did not report a clean context: " + open(stamp).read()[-400:])
         for f in prop_files:
-            mod = 'EPD.' + f[:-2].replace('/', '.')
-            r3 = sh("cd %s && timeout 3000 coqchk -silent -o -Q . EPD %s 2>&1 | tail -15" % (COQ, mod))
-            if 'Axioms: <none>' not in r3.stdout.replace('\n', ' ') and '* Axioms: <none>' not in r3.stdout:
-                if 'Axioms:' in r3.stdout and '<none>' not in r3.stdout.split('Axioms:')[1][:40]:
-                    problems.append("coqchk reports axioms for %s: %s" % (f, r3.stdout[-400:]))
-                elif r3.returncode != 0 or 'Error' in r3.stdout or 'rror:' in r3.stdout:
-                    problems.append("coqchk failed for %s: %s" % (f, r3.stdout[-400:]))
+            ok, out = chk("-norec EPD." + f[:-2].replace('/', '.'))
+            if not ok:
+                problems.append("coqchk -norec failed / reports axioms for %s: %s" % (f, out[-400:]))
     bad = forbidden_scan()
     if bad:
         problems.append("forbidden vernacular: " + '; '.join(bad[:10]))
